@@ -340,14 +340,14 @@ pub fn run(ctx: &Ctx) {
             }
         }
         // random pairs of full components
-        let nr = tier.pick(2_000, 200_000);
+        let nr = tier.pick(2_000u64, 200_000u64);
         for _ in 0..nr {
             let a = &comps[rng.gen_range(0, comps.len())];
             let b = &comps[rng.gen_range(0, comps.len())];
             let f = &all_f[rng.gen_range(0, all_f.len())];
             check_grammar(a, b, f, st);
         }
-        let na = tier.pick(1_000, 30_000);
+        let na = tier.pick(1_000u64, 30_000u64);
         for _ in 0..na {
             let s = arbitrary_string(rng);
             check_arbitrary(&s, st);
